@@ -89,7 +89,7 @@ func readKept(wl *spg.WordList) ([]string, error) {
 				found = true
 			}
 		}
-		if !found {
+		if !found && n > 1 { // a single entry needs no draw
 			return nil, fmt.Errorf("no draw of a one-word generation has the bound Size() = %d (draws %v)", n, o.S.Draws)
 		}
 		at := o.Pw.Tokens().Atoms()
